@@ -119,6 +119,7 @@ class Env:
         self.auxn = 0
         self.sources: dict[str, str] = {}
         self._built = False
+        self.probe = None                 # callable(cls): run right after each class statement of a generated module
 
     # ---------------------------------------------------------------- rendering
     def modname(self, m: str) -> str:
@@ -305,6 +306,8 @@ class Env:
         defined: dict = {m: set() for m in mods}
         for name, d in self.defs.items():
             bodies[d["module"]].append(self._class_src(d.get("py", name), d, frozenset(defined[d["module"]])))
+            if self.probe is not None:
+                bodies[d["module"]].append(f"__verif_probe__({d.get('py', name)})")
             defined[d["module"]].add(name)
         root_src = self.render(root, root_home) if root is not None else None
         header = ("import datetime as dt\nimport collections, collections.abc, dataclasses, datetime, decimal, enum, fractions, pathlib, re, typing, uuid\n"
@@ -324,6 +327,8 @@ class Env:
         if root_src is not None:
             self.sources[root_home] += f"ROOT = {root_src}\n"
         for m in mods:
+            if self.probe is not None:
+                self.modules[m].__dict__["__verif_probe__"] = self.probe
             exec(compile(self.sources[m], f"<{self.modname(m)}>", "exec", dont_inherit=True), self.modules[m].__dict__)
         self._built = True
         self.root_home = root_home
